@@ -12,7 +12,7 @@ import (
 func init() {
 	register(&propDef{
 		ID:       "C20",
-		Explain:  "Decided for the synthetic target's generator (structural necessary conditions): all randomness comes from *rand.Rand objects created by rand.New(rand.NewSource(seed)) with the queue seed or the value's own seed, no package-level math/rand, no crypto/rand, time.Now only on the seed==0 edge of queue.New, and no map iteration order reaches the emitted sequence (same config + same non-zero seed => same draws, single goroutine); range generators clamp: the stored value is the maximum when above it, the minimum when below it, the drawn value otherwise (evaluated on all boundary combinations, int/uint/double); timestamp deltas are refused when min>max or min<0, so steps are non-negative, and the new timestamp is t + Int63n(max-min+1) + min; repeat boundaries: Repeat==1 drops the value without touching the message, Repeat>1 decrements the clone (never the configuration object), Repeat==0 leaves it, and Next re-adds a value only while it is alive; Next returns the head element read before it is advanced; unless disabled, a sync value with repeat 1 stamped with the same queue's latest timestamp is added after the queue is built; every generator/convertor covers all value kinds or returns an error/nil explicitly. Also decided: UpdateQueue.Next removes the returned entry from the head before it re-inserts the regenerated value (addValue's placement search never sees the entry being returned). Round-3 addition: a value computed from a random draw never reaches .Value without passing both range comparisons.",
+		Explain:  "Decided for the synthetic target's generator (structural necessary conditions): all randomness comes from *rand.Rand objects created by rand.New(rand.NewSource(seed)) with the queue seed or the value's own seed, no package-level math/rand, no crypto/rand, time.Now only on the seed==0 edge of queue.New, and no map iteration order reaches the emitted sequence (same config + same non-zero seed => same draws, single goroutine); range generators clamp: the stored value is the maximum when above it, the minimum when below it, the drawn value otherwise (evaluated on all boundary combinations, int/uint/double); timestamp deltas are refused when min>max or min<0, so steps are non-negative, and the new timestamp is t + Int63n(max-min+1) + min; repeat boundaries: Repeat==1 drops the value without touching the message, Repeat>1 decrements the clone (never the configuration object), Repeat==0 leaves it, and Next re-adds a value only while it is alive; Next returns the head element read before it is advanced; unless disabled, a sync value with repeat 1 stamped with the same queue's latest timestamp is added after the queue is built; every generator/convertor covers all value kinds or returns an error/nil explicitly. Also decided: UpdateQueue.Next removes the returned entry from the head before it re-inserts the regenerated value (addValue's placement search never sees the entry being returned). Round-3 addition: a value computed from a random draw never reaches .Value without passing both range comparisons. Also decided: the placement search of addValue replayed with 0..3 queued buckets and the new timestamp below / equal to / above the queued ones (older than all => new first bucket, newer than all => new last bucket, equal => joins that bucket, the search terminates) - the per-call core of 'non-decreasing timestamp order'.",
 		NotCover: "global non-decreasing order across values (correctness of the binary-search insertion), exact repeat counts when Add is called during iteration, overflow of max-min+1, concurrent use (Latest reads without the mutex)",
 		Run:      runC20,
 	})
@@ -468,6 +468,133 @@ func runC20(c *Ctx) {
 				c.Check(pi >= 0 && pi < ai, "C20.pop-first", fnName(Next), "head entry removed before the value is re-added", P.Pos(Next.Pos()), "path: "+p.String())
 			}
 			c.Floor("C20.pop-first/paths", n, 1)
+		}
+	}
+	// ---- placement search of addValue
+	c.Rule("C20.order", "UpdateQueue.addValue, replayed with 0..3 timestamp buckets queued (counters folded): a value older than every queued timestamp is inserted as a new first bucket, a value newer than all as a new last bucket, a value equal to a queued timestamp is appended to that bucket (no new bucket); the search terminates in every scenario")
+	{
+		fQ := P.Field("testing/fake/queue", "UpdateQueue", "q")
+		if fQ == nil {
+			c.Unresolved("C20.order", "queue.UpdateQueue.q")
+		} else {
+			c.Analysed(fnName(addValue))
+			vP := ssa.Value(param(addValue, 1))
+			tsClass := func(e *PPA, st *State, rv RV) string {
+				r := e.Resolve(st, rv)
+				u, ok := r.V.(*ssa.UnOp)
+				if !ok || u.Op != token.MUL {
+					return ""
+				}
+				fa, ok := u.X.(*ssa.FieldAddr)
+				if !ok || vname(fieldOf(fa)) != "Timestamp" || !isNamed(fa.X.Type(), "testing/fake/proto", "Timestamp") {
+					return ""
+				}
+				root := rootOf(e, st, RV{r.F, fa.X})
+				if root.V == vP {
+					return "T"
+				}
+				return "T2"
+			}
+			for qlen := int64(0); qlen <= 3; qlen++ {
+				for _, rel := range []int{-1, 0, 1} {
+					if qlen == 0 && rel != 0 {
+						continue
+					}
+					at := &Atoms{Class: tsClass, Rel: map[[2]string]int{{"T", "T2"}: rel}, Bool: map[string]bool{}}
+					hi := []int64{}
+					e := &PPA{Cond: func(e *PPA, st *State, rv RV) (bool, bool) {
+						// the latest-timestamp bookkeeping is irrelevant here; nil timestamp: present
+						return at.Cond(e, st, rv)
+					}, MaxVisits: 6,
+						IntHook: func(e *PPA, st *State, rv RV) (int64, bool) {
+							if call, ok := rv.V.(*ssa.Call); ok {
+								if la, ok := lenArg(call); ok && loadOfField(e.Resolve(st, RV{rv.F, la}).V, fQ) {
+									return qlen, true
+								}
+							}
+							return 0, false
+						},
+						Watch: func(ev *Ev) bool {
+							if ev.Label == "fact" {
+								return true
+							}
+							if !strings.HasPrefix(ev.Label, "store:") {
+								return false
+							}
+							if ev.Field == fQ {
+								return true
+							}
+							if st, ok := ev.In.(*ssa.Store); ok {
+								if ia, ok := st.Addr.(*ssa.IndexAddr); ok && loadOfField(ia.X, fQ) {
+									return true
+								}
+							}
+							return false
+						},
+						Probe: func(e *PPA, st *State, fr *Frame, in ssa.Instruction) {
+							// slices.Insert(u.q, k, bucket)
+							if call, ok := in.(*ssa.Call); ok {
+								if g := staticCallee(&call.Call); g != nil && pkgPathOf(g) == "slices" && strings.HasPrefix(g.Name(), "Insert") && len(call.Call.Args) >= 2 && loadOfField(call.Call.Args[0], fQ) {
+									if k, ok := e.intVal(st, e.Resolve(st, RV{fr, call.Call.Args[1]}), 0); ok {
+										e.emit(st, Ev{Label: "fact", In: in, F: fr, Note: fmt.Sprintf("insert-at:%d", k)})
+									} else {
+										e.emit(st, Ev{Label: "fact", In: in, F: fr, Note: "insert-at:?"})
+									}
+								}
+							}
+							if sl, ok := in.(*ssa.Slice); ok && sl.High != nil && sl.Low == nil && loadOfField(sl.X, fQ) {
+								if k, ok := e.intVal(st, e.Resolve(st, RV{fr, sl.High}), 0); ok {
+									e.emit(st, Ev{Label: "fact", In: in, F: fr, Note: fmt.Sprintf("insert-at:%d", k)})
+								} else {
+									e.emit(st, Ev{Label: "fact", In: in, F: fr, Note: "insert-at:?"})
+								}
+							}
+						}}
+					e.deepApplied = true
+					_ = hi
+					e.Run(addValue)
+					c.Paths += len(e.Paths)
+					c.Scen++
+					name := fmt.Sprintf("%d buckets queued, new timestamp %+d vs the queued ones", qlen, rel)
+					n := 0
+					for i := range e.Paths {
+						p := &e.Paths[i]
+						if p.End != "return" {
+							continue
+						}
+						n++
+						insertAt := ""
+						joined := false
+						for j := range p.Trace {
+							ev := &p.Trace[j]
+							if ev.Label == "fact" && strings.HasPrefix(ev.Note, "insert-at:") {
+								insertAt = strings.TrimPrefix(ev.Note, "insert-at:")
+							}
+							if strings.HasPrefix(ev.Label, "store:") && ev.Field != fQ {
+								joined = true
+							}
+						}
+						var ok bool
+						want := ""
+						switch {
+						case qlen == 0:
+							want = "new bucket at 0"
+							ok = insertAt == "0" && !joined
+						case rel < 0:
+							want = "new bucket at 0"
+							ok = insertAt == "0" && !joined
+						case rel > 0:
+							want = fmt.Sprintf("new bucket at %d", qlen)
+							ok = insertAt == fmt.Sprint(qlen) && !joined
+						default:
+							want = "appended to the bucket with that timestamp"
+							ok = insertAt == "" && joined
+						}
+						c.Check(ok, "C20.order", fnName(addValue), name, P.Pos(addValue.Pos()), fmt.Sprintf("want %s; new bucket at %q, joined a bucket=%v; path: %s", want, insertAt, joined, p.String()))
+					}
+					c.Check(n >= 1, "C20.order", fnName(addValue), name+": the search terminates", P.Pos(addValue.Pos()), fmt.Sprintf("%d returning paths, %d cut at the unrolling bound", n, e.Truncated))
+				}
+			}
 		}
 	}
 	// ---- sync
